@@ -13,6 +13,7 @@
 import IocProofs.Lemmas.ConcPaths
 import IocProofs.Lemmas.ConcWait
 import IocProofs.Lemmas.ConcNames
+import IocProofs.Lemmas.ConcEntry
 
 namespace Ioc.C14
 open Ioc.Conc
@@ -275,5 +276,77 @@ example : Reach cfg 4 (fun i => (4 : Nat).testBit i) (schedule cfg 4 (fun i => (
     mainReturned (schedule cfg 4 (fun i => (4 : Nat).testBit i) 240 39 init) ∧
     (List.range 4).all (fun i => (schedule cfg 4 (fun i => (4 : Nat).testBit i) 240 39 init).calls i == 1) = true :=
   ⟨schedule_sound cfg 4 _ 240 39 init, by unfold mainReturned; decide, by decide⟩
+
+/-! ### eighth round: which registered closers reach the App that is closed
+
+(a) starts through the package-level entry points: `ioc.Register(cs…)` stores ONE option `SetComponents(cs…)`, `ioc.Run(ops…)`
+runs `append(ops, registerHandlers...)` on a new App — the options of the call first, the stored ones after them (run.go:18-31;
+section 8 of Ioc.Conc). `SetComponents` registers into the registry the App holds at that moment, `SetRegistry` replaces it.
+(b) closers of other Go kinds than (pointer to) struct get their definition like every component: the tag scan's first
+statement is `GetMetaOrRegister`, for every kind. Both are tied to the code by the real runs (`closep`, `closek`) only. -/
+
+/-- Whatever options the call of `ioc.Run` is given — registries of its own included —, and however many `ioc.Register`
+    calls there were: every component handed to `ioc.Register` is in the registry of the App that `ioc.Run` starts (and so
+    is created, collected and closed like every registered closer: C14_all_once). -/
+theorem C14_run_keeps_everything_registered (ops handlers : List ROpt)
+    (hh : ∀ o, o ∈ handlers → o.isComponents = true) (c : Nat) (hc : c ∈ handlers.flatMap ROpt.ids) :
+    c ∈ iocRunRegistry ops handlers := by
+  rw [iocRunRegistry_eq ops handlers hh]
+  exact List.mem_append_right _ hc
+
+/-- … the hypothesis holds for everything `ioc.Register` stores … -/
+theorem C14_register_stores_components (hs : List ROpt) (ids : List Nat) (h : ∀ o, o ∈ hs → o.isComponents = true) :
+    ∀ o, o ∈ iocRegister hs ids → o.isComponents = true :=
+  iocRegister_components hs ids h
+
+/-- … and when the call installs its registries BEFORE its own components (the scenarios `closep`), the registry of the App
+    holds exactly the call's components followed by everything handed to `ioc.Register`. -/
+theorem C14_run_registry (pre comps handlers : List ROpt) (hpre : ∀ o, o ∈ pre → o = .setRegistry)
+    (hc : ∀ o, o ∈ comps → o.isComponents = true) (hh : ∀ o, o ∈ handlers → o.isComponents = true) :
+    iocRunRegistry (pre ++ comps) handlers = comps.flatMap ROpt.ids ++ handlers.flatMap ROpt.ids := by
+  rw [iocRunRegistry_eq _ handlers hh, applyOpts_append, applyOpts_registries pre hpre,
+    foldl_applyOpt_components comps [] hc, List.nil_append]
+
+/-- What the order `append(ops, registerHandlers...)` buys: with the stored options FIRST and the options of the call after
+    them, one `SetRegistry` in the call discards every component handed to `ioc.Register` — the registry holds what the
+    options after the last `SetRegistry` register, nothing else. -/
+theorem C14_handlers_first_counterexample (handlers before after : List ROpt) :
+    applyOpts (handlers ++ (before ++ .setRegistry :: after)) = applyOpts after := by
+  rw [← List.append_assoc]; exact applyOpts_forgets _ _
+
+/-- the history of `closep 2 r.2 10 49`: closers 0, 1 through `ioc.Register`, then `ioc.Run(SetRegistry(fresh),
+    SetComponents(2, 3))`: the code's order keeps all four, the stored-options-first order keeps two. -/
+example : iocRunRegistry [.setRegistry, .setComponents [2, 3]] (iocRegister [] [0, 1]) = [2, 3, 0, 1] ∧
+    applyOpts (iocRegister [] [0, 1] ++ [.setRegistry, .setComponents [2, 3]]) = [2, 3] := by decide
+
+-- non-vacuity of C14_run_registry: two registries, two SetComponents options, two ioc.Register calls
+example : (∀ o, o ∈ [ROpt.setRegistry, .setRegistry] → o = .setRegistry) ∧
+    (∀ o, o ∈ [ROpt.setComponents [3], .setComponents [4, 5]] → o.isComponents = true) ∧
+    (∀ o, o ∈ iocRegister (iocRegister [] [0, 1]) [2] → o.isComponents = true) := by decide
+
+/-- Every registered component gets a definition in the tag scan, whatever its Go kind (the scan has no guard in front of
+    `GetMetaOrRegister`) … -/
+theorem C14_every_kind_defined {α : Type} (comps : List (α × CKind)) :
+    scanDefined codeScanGuard comps = comps.map (·.1) :=
+  scanDefined_all comps
+
+/-- … and a scan that reaches `GetMetaOrRegister` for (pointers to) structs only leaves every registered component of another
+    kind — a pointer to a named integer, a named channel, … — without definition: never created, never closed. -/
+theorem C14_struct_only_scan_drops_a_component {α : Type} (comps : List (α × CKind)) (c : α × CKind) (hc : c ∈ comps)
+    (hk : c.2 ≠ .struct) : (scanDefined structOnlyGuard comps).length < comps.length := by
+  refine scanDefined_drops structOnlyGuard comps c hc ?_
+  unfold structOnlyGuard
+  cases h : c.2 <;> first | exact absurd h hk | rfl
+
+/-- the closers of `closek 4 12 silc 44` -/
+example : scanDefined codeScanGuard [(0, CKind.struct), (1, .int), (2, .slice), (3, .chan)] = [0, 1, 2, 3] ∧
+    scanDefined structOnlyGuard [(0, CKind.struct), (1, .int), (2, .slice), (3, .chan)] = [0] := by decide
+
+/-- the run the driver makes for `closep 2 r.2 10 49` (closers 2, 3, 0, 1 in the registry; closers 1 and 3 fail): a run of the
+    system that ends with Close returned and every closer invoked once -/
+example : Reach cfg 4 (fun j => (10 : Nat).testBit ([2, 3, 0, 1].getD j 0))
+      (schedule cfg 4 (fun j => (10 : Nat).testBit ([2, 3, 0, 1].getD j 0)) 240 49 init) ∧
+    mainReturned (schedule cfg 4 (fun j => (10 : Nat).testBit ([2, 3, 0, 1].getD j 0)) 240 49 init) :=
+  ⟨schedule_sound cfg 4 _ 240 49 init, by unfold mainReturned; decide⟩
 
 end Ioc.C14
